@@ -16,6 +16,8 @@
 (*                   (after both applications)                             *)
 (*   MembersOnly / Count / SubMultiset   for selectors                     *)
 (*   SeedDeterministic   the second run returns the same                   *)
+(*   HistoryIndependent / SequenceDeterministic   re-using the operator    *)
+(*                   instance does not change what it returns              *)
 (*   Exact           for expressions over deterministic selectors the      *)
 (*                   output is EvalSet(expr, in) computed by EvoAlg        *)
 (*   MemberOrFresh   for expressions with random parts / mutators: every   *)
@@ -55,6 +57,11 @@ Clauses(sp, ev) ==
        SubMultiset |-> (sel /\ ev.submulti) => \A x \in RangeOf(OutIds(ev)) : Occ(OutIds(ev), x) <= Occ(InIds(ev), x),
        SeedDeterministic |-> /\ Len(ev.out2) = Len(ev.out)
                              /\ \A i \in 1..Len(ev.out) : ev.out2[i].id = ev.out[i].id /\ ev.out2[i].dna = ev.out[i].dna,
+       \* the operator INSTANCE was applied again (value-equal parents with new fitness, the same population, a
+       \* different one ...): without random state every result equals what a fresh operator returns for that
+       \* input; with a seed, what a second instance with the same seed returns along the same call sequence
+       HistoryIndependent |-> ev.rngfree => \A i \in 1..Len(ev.calls) : ev.calls[i].out = ev.calls[i].ref,
+       SequenceDeterministic |-> ~ev.rngfree => \A i \in 1..Len(ev.calls) : ev.calls[i].out = ev.calls[i].ref,
        Exact |-> (ev.det /\ (sel \/ ex) /\ ev.expr.op # "opaque" /\ Regular(ev.expr, InIds(ev), FitVal(ev)))
                     => OutIds(ev) \in EvalSet(ev.expr, InIds(ev), FitVal(ev)),
        MemberOrFresh |-> ex => \A i \in 1..Len(ev.out) : ev.out[i].id > 0 \/ GoodDNA(sp, ev.out[i]) ]
